@@ -1088,7 +1088,7 @@ func genC17(o *out, r *Rng) {
 
 func genC18(o *out, r *Rng) {
 	o.dir("PROJ", "kindrange")
-	o.dir("ORACLE", "crash")
+	o.dir("ORACLE", "crash,lintacc")
 	var bases []string
 	bases = append(bases, Seeds...)
 	for i := 0; i < 40; i++ {
@@ -1157,6 +1157,11 @@ func genC18(o *out, r *Rng) {
 		for _, a := range atoms {
 			emit(strings.ReplaceAll(h, "%s", a))
 		}
+	}
+	// lint mode selects other poryswitch cases and formats with no font: the generated names differ from those of the real
+	// compilation; author's statements named like generated labels (D20: found while stating the lint theorem)
+	for i := 0; i < scale(300, 6000); i++ {
+		emit(LintNameProgram(r))
 	}
 	// unterminated nests whose levels have fewer tokens than parsing functions (found by the fuel proof: FuelOk.v)
 	for d := 1; d <= 12; d++ {
